@@ -231,6 +231,7 @@ class Ctx:
         self.import_classes = {m[1] for m in members(it) if m[0] == "cls"} or {IMPORT_CLASS}
         self.pending_unary: list[tuple[str, str, str]] = []
         self.r1_pending: list[dict] = []
+        self.r2_pending: list[tuple[str, str, str, str]] = []
 
     # -- roles -------------------------------------------------------------------------------------
     def is_graph(self, f: FuncInfo, e: ast.AST) -> bool:
@@ -251,6 +252,14 @@ class Ctx:
                 if ci is not None and any(c.fq in self.import_classes for c in self.repo.mro(ci)):
                     return True
         return False
+
+    def not_a_name(self, f: FuncInfo, e: ast.AST) -> bool:
+        """By static type the value is a bool / number / None (never a module name)."""
+        try:
+            ms = list(members(self.T.expr(f, e)))
+        except Exception:  # noqa: BLE001
+            return False
+        return bool(ms) and all(m[0] == "b" and m[1] in ("bool", "int", "float", "none") for m in ms)
 
     def ctor_sites(self) -> list[tuple[FuncInfo, ast.Call]]:
         """Calls outside the graph class that construct the graph."""
@@ -280,6 +289,10 @@ class Ctx:
                     out.append((n, n.func.attr, args))
                     continue
                 fq = self.repo.resolve_name(f.module, n.func) if isinstance(n.func, (ast.Name, ast.Attribute)) else None
+                if fq and fq.startswith("networkx.") and fq.endswith("Graph") and (n.args or any(k.arg == "incoming_graph_data" for k in n.keywords)):
+                    # a graph created from data (an edge list): the data is what is inserted
+                    out.append((n, fq.rsplit(".", 1)[-1] + "(data)", [n.args[0] if n.args else next(k.value for k in n.keywords if k.arg == "incoming_graph_data")]))
+                    continue
                 if fq and fq.startswith("networkx.") and n.args and self.is_graph(f, n.args[0]):
                     args = [a.value if isinstance(a, ast.Starred) else a for a in n.args[1:]] + [k.value for k in n.keywords]
                     out.append((n, fq, args))
@@ -294,16 +307,118 @@ class Ctx:
         return out
 
 
+MUTATORS = {"append", "add", "update", "extend", "insert", "setdefault", "appendleft", "__setitem__"}
+
+
+def callable_params(cx: "Ctx", funcs: list[FuncInfo]) -> dict[tuple[str, str], list[FuncInfo]]:
+    """(function, parameter) -> the functions / bound methods handed in for it at the call sites among `funcs` (callbacks:
+    `_walk(modules, imports, self._create_node, self._create_edge)`), followed through parameters that are handed on."""
+    T = cx.T
+    bind: dict[tuple[str, str], list[FuncInfo]] = {}
+    for _ in range(4):
+        changed = False
+        for f in funcs:
+            if isinstance(f.node, ast.Lambda):
+                continue
+            for c in own_nodes(f.node):
+                if not isinstance(c, ast.Call):
+                    continue
+                try:
+                    callees, _ = T.callees(f, c, byname_fallback=False)
+                except Exception:  # noqa: BLE001
+                    callees = []
+                if not callees and isinstance(c.func, ast.Name):
+                    callees = bind.get((f.fq, c.func.id), [])
+                for g in callees:
+                    if isinstance(g.node, ast.Lambda) or any(isinstance(a, ast.Starred) for a in c.args):
+                        continue
+                    a_ = g.node.args
+                    pos = [p.arg for p in [*a_.posonlyargs, *a_.args]]
+                    if g.cls is not None and g.outer is None and not g.is_staticmethod:
+                        pos = pos[1:]
+                    pairs = list(zip(pos, c.args)) + [(k.arg, k.value) for k in c.keywords if k.arg]
+                    for pname, a in pairs:
+                        try:
+                            targets = list(T._callable_targets(T.expr(f, a)))
+                        except Exception:  # noqa: BLE001
+                            targets = []
+                        if isinstance(a, ast.Name):
+                            targets += bind.get((f.fq, a.id), [])
+                        for t in targets:
+                            have = bind.setdefault((g.fq, pname), [])
+                            if t not in have:
+                                have.append(t)
+                                changed = True
+        if not changed:
+            break
+    return bind
+
+
+def _self_fields(f: FuncInfo) -> tuple[set[str], set[str]]:
+    """(fields of the receiver that `f` fills: `self.x[k] = v`, `self.x.add(v)`, `self.x = ...`; fields it reads)."""
+    if f.cls is None or f.is_staticmethod or not f.param_names:
+        return set(), set()
+    me = f.param_names[0]
+    written: set[str] = set()
+    read: set[str] = set()
+
+    def field(e: ast.AST) -> str | None:
+        while isinstance(e, ast.Subscript):
+            e = e.value
+        return e.attr if isinstance(e, ast.Attribute) and isinstance(e.value, ast.Name) and e.value.id == me else None
+
+    for n in own_nodes(f.node):
+        if isinstance(n, (ast.Assign, ast.AugAssign, ast.AnnAssign)):
+            for t in n.targets if isinstance(n, ast.Assign) else [n.target]:
+                for x in (t.elts if isinstance(t, (ast.Tuple, ast.List)) else [t]):
+                    if field(x):
+                        written.add(field(x))
+        elif isinstance(n, ast.Call) and isinstance(n.func, ast.Attribute) and n.func.attr in MUTATORS and field(n.func.value):
+            written.add(field(n.func.value))
+        elif isinstance(n, ast.Attribute) and isinstance(n.ctx, ast.Load) and isinstance(n.value, ast.Name) and n.value.id == me:
+            read.add(n.attr)
+    return written, read
+
+
 def construction_functions(cx: Ctx) -> list[FuncInfo]:
-    """Functions reachable from the constructor that touch the networkx graph, and everything on the way to them."""
+    """Functions reachable from the constructor that touch the networkx graph, functions that fill a field of the object which those
+    read (ledgers from which the graph is materialised later), and everything on the way to them."""
     reach = list(reachable_funcs(cx.repo, [cx.init], byname=False))
+    cx.callbacks = callable_params(cx, reach)
+    for t in [t for ts in cx.callbacks.values() for t in ts]:
+        if t not in reach and t.module.name.startswith("pytestarch"):
+            reach.append(t)
+    # calls on receivers whose type is not known (`request.apply_to(self)` on what a generator yields): functions of the graph's own
+    # module that touch the graph and are reachable when such calls are resolved by method name, with the functions on the way
+    by_name = reachable_funcs(cx.repo, [cx.init], byname=True)
+    by_fq = {f.fq: f for f in by_name}
+    for f, path in by_name.items():
+        if f not in reach and f.module is cx.g.module and cx.sink_events(f):
+            for fq in path:
+                g_ = by_fq.get(fq)
+                if g_ is not None and g_ not in reach and g_.module.name.startswith("pytestarch"):
+                    reach.append(g_)
+    name_edges: dict[FuncInfo, list[FuncInfo]] = {f: [c for c in callees_of(cx.repo, f, byname=True) if c in reach] for f in reach if f in by_name}
+    via_param: dict[FuncInfo, list[FuncInfo]] = {}
+    for f in reach:
+        for c in own_nodes(f.node):
+            if isinstance(c, ast.Call) and isinstance(c.func, ast.Name) and (f.fq, c.func.id) in cx.callbacks:
+                via_param.setdefault(f, []).extend(cx.callbacks[(f.fq, c.func.id)])
     has = {f: bool(cx.sink_events(f)) for f in reach}
     keep = {f for f in reach if has[f]}
+    if keep:
+        fields = {f: _self_fields(f) for f in reach}
+        for _ in range(3):
+            wanted = set().union(*[fields[f][1] for f in keep])
+            more = {f for f in reach if f not in keep and f.cls is not None and f.name != "__init__" and fields[f][0] & wanted}
+            if not more:
+                break
+            keep |= more
     changed = True
     while changed:
         changed = False
         for f in reach:
-            if f not in keep and any(c in keep for c in callees_of(cx.repo, f, byname=False)):
+            if f not in keep and any(c in keep for c in [*callees_of(cx.repo, f, byname=False), *via_param.get(f, []), *name_edges.get(f, [])]):
                 keep.add(f)
                 changed = True
     keep.add(cx.init)
@@ -322,8 +437,10 @@ class Flattening:
         self.ev = Evaluator(cx.repo, tolerant=True)
         self.objs: dict[object, Obj] = {}
         self.build_error: str | None = None
+        self.helpers: dict[object, dict[str, Obj]] = {}  # limit -> class fq -> the (only) object of that class built during construction
         for lim in LIMITS:
             try:
+                del self.ev.created[:]
                 o = self.ev._construct(cx.g, [[], []], {cx.limit_param: lim})
             except (Unknown, Raised) as e:
                 self.build_error = f"constructor not evaluable for limit {lim}: {e}"
@@ -332,6 +449,11 @@ class Flattening:
                 self.build_error = "constructor did not yield an object"
                 break
             self.objs[lim] = o
+            by_cls: dict[str, list[Obj]] = {}
+            for h in self.ev.created:
+                if h is not o:
+                    by_cls.setdefault(h.cls.fq, []).append(h)
+            self.helpers[lim] = {fq: hs[0] for fq, hs in by_cls.items() if len(hs) == 1}
         self.carriers: set[str] = set()
         if not self.build_error:
             keys = set().union(*[set(o.attrs) for o in self.objs.values()])
@@ -339,6 +461,14 @@ class Flattening:
                 sigs = {self._sig(o.attrs.get(k)) for o in self.objs.values()}
                 if len(sigs) > 1:
                     self.carriers.add(k)
+            # helper objects (a builder, a namer) that hold something derived from the limit
+            for fq in set().union(*[set(h) for h in self.helpers.values()]):
+                hs = [self.helpers[lim].get(fq) for lim in LIMITS]
+                if any(h is None for h in hs):
+                    continue
+                for k in set().union(*[set(h.attrs) for h in hs]):
+                    if len({self._sig(h.attrs.get(k)) for h in hs}) > 1:
+                        self.carriers.add(k)
         self.flat_exprs: dict[int, str] = {}  # id(expr) -> verdict
         self.verdicts: list[dict] = []
         # Import records of the concrete classes that the idealised model does not cover (tabulated in extra rounds)
@@ -346,6 +476,17 @@ class Flattening:
             self.records, self.records_failed = import_records(cx, Evaluator(cx.repo, tolerant=True))
         except (Unknown, Raised, AnalysisError) as e:
             self.records, self.records_failed = [], [f"Import classes: {e}"]
+
+    def receiver(self, f: FuncInfo, lim: object) -> object:
+        """The object a method of the construction code runs on when a graph with this limit is built: the graph itself, or the helper
+        object of the method's class that the constructor created."""
+        g = self.objs[lim]
+        if f.cls is None or any(c == f.cls for c in self.cx.repo.mro(g.cls)):
+            return g
+        for fq, h in self.helpers.get(lim, {}).items():
+            if any(c == f.cls for c in self.cx.repo.mro(h.cls)):
+                return h
+        return POISON
 
     @staticmethod
     def _sig(v: object) -> str:
@@ -462,6 +603,22 @@ class Flattening:
                 found.append(None)
         return found[0] if len(found) == 1 else None
 
+    @staticmethod
+    def _record_fields_read(f: FuncInfo, exprs: list, name: str) -> dict[str, ast.Attribute] | None:
+        """{field: a node reading it} when every use of the local `name` in the expressions is a field read `name.field`."""
+        fields: dict[str, ast.Attribute] = {}
+        for x in exprs:
+            for n in ast.walk(x):
+                if isinstance(n, ast.Attribute) and isinstance(n.value, ast.Name) and n.value.id == name:
+                    p = parent(n)
+                    if isinstance(p, ast.Call) and p.func is n:
+                        return None  # a method call, not a field
+                    fields.setdefault(n.attr, n)
+            direct = [n for n in ast.walk(x) if isinstance(n, ast.Name) and n.id == name and not (isinstance(parent(n), ast.Attribute) and parent(n).value is n)]
+            if direct:
+                return None
+        return fields or None
+
     def _raw_definition(self, f: FuncInfo, name: str, flow: Flow):
         """The only definition of a raw local, when it is an expression that does not depend on the limit (None otherwise)."""
         cache = self.__dict__.setdefault("_rawdef", {})
@@ -484,9 +641,10 @@ class Flattening:
         used: list[str] = []
         local = set(f.param_names) | {n.id for n in own_nodes(f.node) if isinstance(n, ast.Name) and isinstance(n.ctx, ast.Store)}
         local |= {n.name for n in own_nodes(f.node) if isinstance(n, (ast.FunctionDef, ast.AsyncFunctionDef))}
+        local |= {n.name for n in own_nodes(f.node) if isinstance(n, (ast.MatchAs, ast.MatchStar)) and n.name} | {n.rest for n in own_nodes(f.node) if isinstance(n, ast.MatchMapping) and n.rest}
         is_method = f.cls is not None and f.outer is None and not f.is_staticmethod and bool(f.param_names)
         if is_method:
-            env[f.param_names[0]] = self.objs[lim]
+            env[f.param_names[0]] = self.receiver(f, lim)
         i = 0
         aliases: list[tuple[str, ast.expr]] = []
         raw_fallback: dict[str, object] = {}
@@ -511,6 +669,19 @@ class Flattening:
                     i += 2
                     env[n.id] = _model_import(a, b)
                     used += [a, b, *_prefixes(a), *_prefixes(b)]
+                elif ("RAW" in tags or "FLAT" in tags) and self._record_fields_read(f, [e, *[d for _, d in aliases]], n.id) is not None:
+                    # a record that carries raw names (`request.start`, `request.end`, `request.inherits`): one pool name per name field
+                    attrs: dict[str, object] = {}
+                    for attr, node in self._record_fields_read(f, [e, *[d for _, d in aliases]], n.id).items():
+                        if self.cx.not_a_name(f, node):
+                            ks = {m[1] for m in members(self.cx.T.expr(f, node))}
+                            attrs[attr] = False if "bool" in ks else (None if ks == {"none"} else 1)
+                        else:
+                            name = NAME_POOL[(i + rnd) % len(NAME_POOL)]
+                            i += 1
+                            attrs[attr] = name
+                            used.append(name)
+                    env[n.id] = NativeObj(f"<record {n.id}>", {}, attrs)
                 elif "RAW" in tags and "FLAT" not in tags and len(aliases) < 12 and self._raw_definition(f, n.id, flow) is not None:
                     # a raw local with one definition (`parents = get_parent_modules(importee)`, `importee = imp.importee()`): evaluate the
                     # definition, so that names that belong together (a name and its parents list) stay related; pool name as a fallback
@@ -717,7 +888,7 @@ class Flattening:
         for n in ast.walk(c):
             if isinstance(n, ast.Name) and isinstance(n.ctx, ast.Load):
                 if f.cls is not None and f.outer is None and not f.is_staticmethod and f.param_names and n.id == f.param_names[0]:
-                    env[n.id] = self.objs[lim]
+                    env[n.id] = self.receiver(f, lim)
                 elif n.id in f.param_names or any(isinstance(x, ast.Name) and x.id == n.id and isinstance(x.ctx, ast.Store) for x in own_nodes(f.node)):
                     env.setdefault(n.id, POISON)
         try:
@@ -745,6 +916,55 @@ class LoopFlow(Flow):
     the code after the loop.  Inside the body the target is always freshly bound, so a loop variable that re-uses the name of a raw
     parameter (`for parent, child in zip(flattened, flattened[1:])` in a function with a parameter `child`) is what the iterable yields
     and nothing else.  This subclass hands the strongly updated state to the body edge and keeps the weak one for the exit edge."""
+
+    callbacks: dict = {}
+
+    def __init__(self, repo: Repo, types, spec: Spec, callbacks: dict | None = None) -> None:
+        self.callbacks = callbacks or {}
+        super().__init__(repo, types, spec)
+
+    def _call(self, fi: FuncInfo, call: ast.Call, env: dict):
+        targets = self.callbacks.get((fi.fq, call.func.id)) if isinstance(call.func, ast.Name) else None
+        if targets:
+            # a callback handed in as a parameter: the arguments flow to the parameters of every function bound to it
+            args = [self._expr(fi, a, env) for a in call.args]
+            kwargs = {k.arg: self._expr(fi, k.value, env) for k in call.keywords}
+            out = frozenset()
+            scoped = [t for t in targets if self.spec.scope is None or self.spec.scope(t)]
+            for t in scoped:
+                self._bind_call(t, args, kwargs, None, call)
+                out |= self.ret_tags.get(t.fq, frozenset())
+            if len(scoped) < len(targets):
+                for t_ in [*args, *kwargs.values()]:
+                    out |= t_
+            self.node_tags[id(call)] = self.node_tags.get(id(call), frozenset()) | out
+            return out
+        return super()._call(fi, call, env)
+
+    def _expr_inner(self, fi: FuncInfo, e: ast.expr, env: dict):
+        t = super()._expr_inner(fi, e, env)
+        if isinstance(e, ast.Attribute) and ast.unparse(e) in env:
+            # the function assigned this field itself (`self._nodes = {}`), and the base engine then reads the local value only; methods
+            # called in between may have filled the field (`self._initialise()` records into the ledger): join what the field holds
+            for ci_fq in self._classes_of(fi, e.value):
+                ci = self.repo.classes.get(ci_fq)
+                if ci is not None:
+                    for c in [*self.repo.mro(ci), *self.repo.subclasses(ci)]:
+                        t = t | self.field_tags.get((c.fq, e.attr), frozenset())
+        return t
+
+    def _stmt(self, fi: FuncInfo, s: ast.AST, env: dict) -> None:
+        if isinstance(s, ast.Match):
+            # the names a pattern captures hold (parts of) the subject
+            t = self._it(self._expr(fi, s.subject, env))
+            for case in s.cases:
+                for p in ast.walk(case.pattern):
+                    for name in ([p.name] if isinstance(p, (ast.MatchAs, ast.MatchStar)) and p.name else []) + ([p.rest] if isinstance(p, ast.MatchMapping) and p.rest else []):
+                        env[name] = env.get(name, frozenset()) | t if any(name == q for c2 in s.cases if c2 is not case for x in ast.walk(c2.pattern) for q in [getattr(x, "name", None)]) else t
+                if case.guard is not None:
+                    self._expr(fi, case.guard, env)
+            return
+        super()._stmt(fi, s, env)
 
     def _analyse(self, fi: FuncInfo) -> None:
         from core.cfg import ENTRY
@@ -816,7 +1036,7 @@ def run_flow(cx: Ctx, cons: list[FuncInfo], flat: dict[int, str]) -> Flow:
         return tags
 
     seeds = {(cx.init.fq, cx.modules_param): {"RAW"}, (cx.init.fq, cx.limit_param): {"LIMIT"}}
-    return LoopFlow(cx.repo, T, Spec(sources=sources, post=post, param_seeds=seeds, objects_carry=False, scope=lambda f: f in consset))
+    return LoopFlow(cx.repo, T, Spec(sources=sources, post=post, param_seeds=seeds, objects_carry=False, scope=lambda f: f in consset), getattr(cx, "callbacks", {}))
 
 
 def rule_r1_r3(cx: Ctx, cons: list[FuncInfo]) -> Flow:
@@ -967,7 +1187,13 @@ def rule_r1_r3(cx: Ctx, cons: list[FuncInfo]) -> Flow:
             for a in args:
                 tags = set(flow.tags(a)) - {"LIMIT"}
                 if not tags:
+                    if not isinstance(a, (ast.Constant, ast.Dict, ast.List, ast.Set)) and not cx.not_a_name(f, a):
+                        # the flow lost this value (it came through a call that could not be resolved, a generator, a record, ...):
+                        # what it holds is observed when the constructor is evaluated (rule_r6)
+                        cx.r1_pending.append({"key": repo.key(f, stmt_of(node)) + f" [{what}({norm(a, 30)})]", "f": f, "node": node, "arg": a, "what": what, "where": where(f, node), "untracked": True})
                     continue
+                if cx.not_a_name(f, a):
+                    continue  # a flag / a count read from a record that also carries names (`request.inherits`)
                 n += 1
                 ok = tags == {"FLAT"}
                 key = repo.key(f, stmt_of(node)) + f" [{what}({norm(a, 30)})]"
@@ -995,6 +1221,7 @@ def rule_r1_r3(cx: Ctx, cons: list[FuncInfo]) -> Flow:
             else:
                 res.observe(f"C09.R3: `{header(st)}` in {f.qualname} writes {w.root_kind} state during graph construction (no node name involved)")
     res.floor("C09.R1", 3, n)
+    cx.r1_count = n
     res.extra["c09_flatten_sites"] = n_flat
     res.extra["c09_limit_carriers"] = sorted(fl.carriers)
     if not n_flat and not res.undecided:
@@ -1222,10 +1449,77 @@ def _flat_comparisons(cons: list[FuncInfo], flow: Flow) -> list[tuple[FuncInfo, 
     return out
 
 
+def _ledger_of(f: FuncInfo, e: ast.AST) -> tuple | None:
+    """('field', attr) for `self.attr[...]...`, ('local', function, name) for a local container."""
+    while isinstance(e, ast.Subscript):
+        e = e.value
+    if isinstance(e, ast.Attribute) and isinstance(e.value, ast.Name) and f.cls is not None and f.param_names and e.value.id == f.param_names[0]:
+        return ("field", e.attr)
+    if isinstance(e, ast.Name) and e.id not in f.param_names:
+        return ("local", f.fq, e.id)
+    return None
+
+
+def pair_ledger_writes(cons: list[FuncInfo], flow: Flow) -> dict[tuple, list[tuple[FuncInfo, ast.AST, ast.expr, ast.expr]]]:
+    """Containers in which the construction code records pairs of (flattened) names for a later insertion:
+    `self.edges[a, b] = kind`, `self.edges.setdefault((a, b), kind)`, `edges.add((a, b))`, `edges.append((a, b, kind))`."""
+    out: dict[tuple, list] = {}
+
+    def flat(x: ast.expr) -> bool:
+        return bool(set(flow.tags(x)) & {"FLAT", "RAW"})
+
+    for f in cons:
+        for n in own_nodes(f.node):
+            pair = base = None
+            if isinstance(n, ast.Subscript) and isinstance(n.ctx, ast.Store) and isinstance(n.slice, ast.Tuple) and len(n.slice.elts) == 2:
+                pair, base = n.slice, n.value
+            elif isinstance(n, ast.Call) and isinstance(n.func, ast.Attribute) and n.func.attr in ("add", "append", "setdefault", "appendleft") and n.args and isinstance(n.args[0], ast.Tuple) and len(n.args[0].elts) >= 2:
+                pair, base = n.args[0], n.func.value
+            if pair is None or not (flat(pair.elts[0]) and flat(pair.elts[1])):
+                continue
+            led = _ledger_of(f, base)
+            if led is not None:
+                out.setdefault(led, []).append((f, n, pair.elts[0], pair.elts[1]))
+    return out
+
+
+def _read_from_ledger(f: FuncInfo, node: ast.AST, u: ast.expr, v: ast.expr, ledgers: dict) -> tuple | None:
+    """The ledger whose recorded pairs `u`, `v` are, when both are bound by an enclosing `for` (or comprehension) over it."""
+    if not (isinstance(u, ast.Name) and isinstance(v, ast.Name)):
+        return None
+    for a in ancestors(node):
+        gens = [(a.target, a.iter)] if isinstance(a, (ast.For, ast.AsyncFor)) else [(g.target, g.iter) for g in getattr(a, "generators", [])]
+        for target, it in gens:
+            names = {x.id for x in ast.walk(target) if isinstance(x, ast.Name)}
+            if u.id in names and v.id in names:
+                for x in ast.walk(it):
+                    led = _ledger_of(f, x) if isinstance(x, (ast.Attribute, ast.Name)) else None
+                    if led is not None and led in ledgers:
+                        return led
+                return None
+    return None
+
+
 def rule_r2(cx: Ctx, cons: list[FuncInfo], flow: Flow) -> None:
     res, repo = cx.res, cx.repo
     n = 0
     flat_cmp = _flat_comparisons(cons, flow)
+    ledgers = pair_ledger_writes(cons, flow)
+    ledger_ok: dict[tuple, bool] = {}
+    for led, writes in ledgers.items():
+        verdicts = [guarded_distinct(cx, cons, f, w, a, b) for f, w, a, b in writes]
+        ledger_ok[led] = all(ok is True for ok, _ in verdicts)
+
+    def undecide(key: str, detail: str, wh: str) -> None:
+        cx.r2_pending.append(("undecided", key, detail, wh))
+
+    def judge(key: str, ok: bool, detail: str, wh: str) -> None:
+        if ok:
+            res.add("C09.R2", key, True, detail, wh, kind="dominance")
+        else:
+            # no guard found on the way to this insertion: the guard may act further up (on what is recorded for a later insertion);
+            # whether a self-edge can appear is then read off the construction table (C09.R6)
+            cx.r2_pending.append(("violation", key, detail, wh))
     for f in cons:
         for node, what, args in cx.sink_events(f):
             if not isinstance(node, ast.Call):
@@ -1239,7 +1533,7 @@ def rule_r2(cx: Ctx, cons: list[FuncInfo], flow: Flow) -> None:
                 u = pos[0] if len(pos) > 0 else kw.get("u_of_edge", kw.get("u"))
                 v = pos[1] if len(pos) > 1 else kw.get("v_of_edge", kw.get("v"))
                 if u is None or v is None or isinstance(u, ast.Starred) or isinstance(v, ast.Starred):
-                    res.undecide("C09.R2", key, "the two ends of the inserted edge cannot be identified", where(f, node))
+                    undecide(key, "the two ends of the inserted edge cannot be identified", where(f, node))
                     continue
                 for c_, _pol in conds(f, node):
                     asks = _asks_reachability(cx, f, c_)
@@ -1252,8 +1546,13 @@ def rule_r2(cx: Ctx, cons: list[FuncInfo], flow: Flow) -> None:
                         )
                         break
                 ok, why = guarded_distinct(cx, cons, f, node, u, v)
+                if not ok:
+                    led = _read_from_ledger(f, node, u, v, ledgers)
+                    if led is not None and ledger_ok.get(led):
+                        wf, wn, _a, _b = ledgers[led][0]
+                        ok, why = True, f"the pairs are read from `{led[-1]}`, and every pair recorded there is tested first (`{header(stmt_of(wn))}` in {wf.qualname}" + (f" and {len(ledgers[led]) - 1} more)" if len(ledgers[led]) > 1 else ")")
                 if ok is None:
-                    res.undecide("C09.R2", key, why, where(f, node))
+                    undecide(key, why, where(f, node))
                     continue
                 try:
                     in_guard = atoms_of(guard_formula(f, node))
@@ -1262,25 +1561,36 @@ def rule_r2(cx: Ctx, cons: list[FuncInfo], flow: Flow) -> None:
                 elsewhere = [(cf, cn) for cf, cn in flat_cmp if _eq_atom(cn.left, cn.comparators[0])[1] not in in_guard]
                 if not ok and elsewhere and len(elsewhere) == len(flat_cmp):
                     cf, cn = elsewhere[0]
-                    res.undecide("C09.R2", key, f"`{norm(node, 60)}` is not provably guarded by a test that its two ends differ, but {cf.qualname} compares two flattened names in `{norm(cn, 50)}`: the connection between that test and this insertion is not understood", where(f, node))
+                    undecide(key, f"`{norm(node, 60)}` is not provably guarded by a test that its two ends differ, but {cf.qualname} compares two flattened names in `{norm(cn, 50)}`: the connection between that test and this insertion is not understood", where(f, node))
                     continue
-                res.add("C09.R2", key, ok, f"an edge is only added between two different (flattened) nodes ({why})" if ok else f"`{norm(node, 70)}` is not guarded by a test that `{norm(u, 30)}` and `{norm(v, 30)}` differ: sub modules collapsed into one node import 'themselves'", where(f, node), kind="dominance")
-            elif short in BULK_EDGE_ADDERS:
+                judge(key, bool(ok), f"an edge is only added between two different (flattened) nodes ({why})" if ok else f"`{norm(node, 70)}` is not guarded by a test that `{norm(u, 30)}` and `{norm(v, 30)}` differ: sub modules collapsed into one node import 'themselves'", where(f, node))
+            elif short in BULK_EDGE_ADDERS or short.endswith("Graph(data)"):
                 n += 1
                 src = args[0] if args else None
+                if short.endswith("Graph(data)"):
+                    short = "add_edges_from"  # a graph created from an edge list inserts that list
+                led = _ledger_of(f, src) if isinstance(src, (ast.Attribute, ast.Name)) else None
+                if led is not None and led in ledgers and ledger_ok.get(led):
+                    wf, wn, _a, _b = ledgers[led][0]
+                    judge(key, True, f"the inserted pairs are those recorded in `{led[-1]}`, each of which is tested first (`{header(stmt_of(wn))}` in {wf.qualname})", where(f, node))
+                    continue
                 elt = None
                 if isinstance(src, (ast.ListComp, ast.GeneratorExp, ast.SetComp)) and isinstance(src.elt, ast.Tuple) and len(src.elt.elts) >= 2:
                     elt = src.elt
                 elif isinstance(src, (ast.List, ast.Tuple)) and len(src.elts) == 1 and isinstance(src.elts[0], ast.Tuple) and len(src.elts[0].elts) >= 2 and short != "add_path":
                     elt = src.elts[0]
                 if elt is None or short not in ("add_edges_from", "add_weighted_edges_from"):
-                    res.undecide("C09.R2", key, f"edges inserted in bulk through {short}: the pairs cannot be identified", where(f, node))
+                    undecide(key, f"edges inserted in bulk through {short}: the pairs cannot be identified", where(f, node))
                     continue
                 ok, why = guarded_distinct(cx, cons, f, elt, elt.elts[0], elt.elts[1])
+                if not ok:
+                    led = _read_from_ledger(f, elt, elt.elts[0], elt.elts[1], ledgers)
+                    if led is not None and ledger_ok.get(led):
+                        ok, why = True, f"the pairs are read from `{led[-1]}`, and every pair recorded there is tested first"
                 if ok is None:
-                    res.undecide("C09.R2", key, why, where(f, node))
+                    undecide(key, why, where(f, node))
                     continue
-                res.add("C09.R2", key, bool(ok), "only pairs of different (flattened) nodes are inserted" if ok else f"`{norm(node, 70)}` inserts pairs without testing that the two ends differ: collapsed sub modules import 'themselves'", where(f, node), kind="dominance")
+                judge(key, bool(ok), "only pairs of different (flattened) nodes are inserted" if ok else f"`{norm(node, 70)}` inserts pairs without testing that the two ends differ: collapsed sub modules import 'themselves'", where(f, node))
     res.floor("C09.R2", 1, n)
 
 
@@ -1426,8 +1736,17 @@ def rule_r6(cx: Ctx, records: list[tuple]) -> bool:
 
     def factory(args: list, kwargs: dict):
         g = ModelGraph()
-        if args or kwargs:
-            g.unreliable = "the networkx graph is created from existing data"
+        data = args[0] if args else kwargs.get("incoming_graph_data")
+        if len(args) > 1 or set(kwargs) - {"incoming_graph_data"}:
+            g.unreliable = "the networkx graph is created with attributes"
+        elif data is not None:
+            if data is POISON or isinstance(data, (str, dict, Obj, NativeObj)):
+                g.unreliable = "the networkx graph is created from data that is not a list of edges"
+            else:
+                try:
+                    g.add_edges_from(list(data))
+                except TypeError:
+                    g.unreliable = "the networkx graph is created from data that is not a list of edges"
         created.append(g)
         return g.native
 
@@ -1806,22 +2125,69 @@ def run(repo: Repo) -> Result:
     res.not_decided = "the quotient law as an equality between two scans, and verdict preservation (both relate two runs)."
     res.trusted_base = ["engine flow analysis / CFG", "rules/c09_eval.py: finite-domain evaluator of pure str/int computations (whitelisted operations, nothing of pytestarch is imported or run)"]
     cx = Ctx(repo, res)
-    cons = construction_functions(cx)
-    flow = rule_r1_r3(cx, cons)
-    rule_r2(cx, cons, flow)
-    tabulated = rule_r6(cx, getattr(cx, "import_records", []))
+
+    def guarded(rule: str, what: str, fn, *a):
+        """A rule that fails internally has no verdict: undecided, never a crash and never silence."""
+        try:
+            return fn(*a)
+        except AnalysisError:
+            raise
+        except Exception as e:  # noqa: BLE001
+            import traceback
+
+            tb = traceback.extract_tb(e.__traceback__)[-1]
+            res.undecide(rule, f"{cx.g.module.relpath}::{cx.g.name}::{what}", f"the rule failed internally ({type(e).__name__}: {e} at {tb.filename.rsplit('/', 1)[-1]}:{tb.lineno}) - no verdict", where(cx.init, cx.init.node))
+            return None
+
+    cons = guarded("C09.R1", "construction code", construction_functions, cx)
+    flow = guarded("C09.R1", "flow to the graph sinks", rule_r1_r3, cx, cons) if cons is not None else None
+    if flow is not None:
+        guarded("C09.R2", "self-edge tests", rule_r2, cx, cons, flow)
+    tabulated = bool(guarded("C09.R6", "construction table", rule_r6, cx, getattr(cx, "import_records", [])))
     r6_passed = tabulated and not any(o.rule == "C09.R6" and not o.ok for o in res.obligations)
-    if getattr(cx, "limit_unused", None):
+    for kind, key, detail, wh in cx.r2_pending:
         if r6_passed:
-            # no expression of the construction code was recognised as the truncation, but the evaluated constructor does flatten
-            res.observe(f"C09.R3: no truncation was recognised in the construction code ({cx.limit_unused}) - contradicted by the construction table (C09.R6), which finds the limited graphs flattened")
+            res.add(
+                "C09.R2", key, True,
+                f"no test that the two ends differ is visible on the way to this insertion ({detail[:160]}); the constructor evaluated on the model inputs (C09.R6: imports whose ends "
+                "flatten to the same node for limits 1, 2 and 3 included) inserts no edge from a node to itself and yields the quotient graph: the test acts before the insertion (e.g. on what is recorded for it)",
+                wh, kind="dominance",
+            )
+        elif kind == "violation":
+            res.add("C09.R2", key, False, detail, wh, kind="dominance")
         else:
-            res.add("C09.R3", f"{cx.g.module.relpath}::{cx.g.name}::the limit reaches a truncation", False, cx.limit_unused, where(cx.init, cx.init.node), kind="flow")
+            res.undecide("C09.R2", key, detail, wh)
+    if getattr(cx, "limit_unused", None):
+        # no expression of the construction code was recognised as the truncation: that is non-recognition, not evidence.  What the limit
+        # does to the graph is read off the evaluated constructor (C09.R6): flattened -> fine; not the quotient -> C09.R6 reports it
+        if r6_passed:
+            res.observe(f"C09.R3: no truncation was recognised in the construction code ({cx.limit_unused}) - contradicted by the construction table (C09.R6), which finds the limited graphs flattened")
+        elif tabulated:
+            res.observe(f"C09.R3: no truncation was recognised in the construction code ({cx.limit_unused}); the construction table (C09.R6) reports what the limited graph looks like")
+        else:
+            res.undecide("C09.R3", f"{cx.g.module.relpath}::{cx.g.name}::the limit reaches a truncation", "no expression of the construction code was recognised as the truncation of node names, and the constructor cannot be evaluated on model inputs either", where(cx.init, cx.init.node))
     for k, p in enumerate(cx.r1_pending):
         a = p["arg"]
-        obs = getattr(cx, "r6_seen", {}).get(k, {}) if tabulated and not any(o.rule == "C09.R6" and not o.ok for o in res.obligations) else {}
-        values = {lim: [x for v in vs for x in (Flattening._leaves(v) or [POISON])] for lim, vs in obs.items()}
+        obs = getattr(cx, "r6_seen", {}).get(k, {}) if tabulated and (r6_passed or p.get("untracked")) else {}
+        values = {lim: [x for v in vs if not isinstance(v, (bool, int, float, type(None))) for x in (Flattening._leaves(v) or [POISON])] for lim, vs in obs.items()}
+        if obs and all(obs.get(lim) for lim in (1, 2, 3)) and not any(values.values()):
+            res.observe(f"C09.R1: `{norm(a, 40)}` at {p['what']} only ever holds flags / numbers / None when the constructor is evaluated: not a node name")
+            continue
         contradicted = bool(values) and all(values.get(lim) for lim in (1, 2, 3)) and all(isinstance(x, str) and trunc(x, lim) == x for lim, xs in values.items() for x in xs)
+        if p.get("untracked"):
+            # no static claim either way: only what was observed counts
+            names = {lim: [x for x in xs if isinstance(x, str)] for lim, xs in values.items()}
+            raw = next(((lim, x) for lim in (1, 2, 3) for x in names.get(lim, []) if trunc(x, lim) != x), None)
+            if raw is not None:
+                res.add(
+                    "C09.R1", p["key"], False,
+                    f"when the constructor is evaluated on the model inputs with level_limit={raw[0]}, `{norm(a, 40)}` holds the un-truncated name {raw[1]!r} at this {p['what']}: nodes/edges below the limit enter the graph (or are looked up) un-truncated",
+                    p["where"], kind="flow",
+                )
+            elif contradicted:
+                cx.r1_count = getattr(cx, "r1_count", 0) + 1
+                res.add("C09.R1", p["key"], True, f"`{norm(a, 40)}` is not reached by the static flow; every value it holds at this {p['what']} when the constructor is evaluated on the model inputs (limits 1, 2, 3) is a truncated name", p["where"], kind="flow")
+            continue
         if contradicted:
             n_obs = sum(len(xs) for xs in values.values())
             res.add(
@@ -1835,6 +2201,10 @@ def run(repo: Repo) -> Result:
                 f"`{norm(a, 40)}` reaches {p['what']} without having passed the level-limit truncation: with a level limit, nodes/edges below the limit enter the graph (or are looked up) un-truncated",
                 p["where"], kind="flow",
             )
+    if "C09.R1" in res.floors:
+        # a design that inserts in bulk (`add_nodes_from(ledger)`, `add_edges_from(...)`) has fewer sinks than today's code: one judged
+        # sink is enough when the evaluated constructor confirms the quotient, otherwise the old floor guards against a vacuous pass
+        res.floor("C09.R1", 1 if r6_passed else res.floors["C09.R1"][0], getattr(cx, "r1_count", res.floors["C09.R1"][1]))
     for pkey, detail, wh in cx.pending_unary:
         if tabulated:
             res.observe(f"C09.R2: {detail} - judged by the construction table (C09.R6)")
@@ -1842,6 +2212,6 @@ def run(repo: Repo) -> Result:
             res.undecide("C09.R2", pkey, detail, wh)
     from .c09_r5 import rule_r5
 
-    scan_depends = rule_r5(cx)
-    rule_r4(cx, scan_depends)
+    scan_depends = bool(guarded("C09.R5", "pre-filters", rule_r5, cx))
+    guarded("C09.R4", "limit handed to the graph", rule_r4, cx, scan_depends)
     return res
